@@ -72,24 +72,43 @@ def build_nets(nets):
     return out
 
 
+_APP_CLASSES = {}
+
+
+def _cls(C, name, i):
+    """The library's constraint class, or - for every third constraint of a
+    list - an application's own class derived from it (an application that
+    labels its constraints; an instance of a derived class is an instance
+    of the documented class)."""
+    base = getattr(C, name)
+    if i % 3 != 2:
+        return base
+    if base not in _APP_CLASSES:
+        _APP_CLASSES[base] = type("App" + name, (base,), {
+            "__doc__": "application-defined " + name, "label": "app"})
+    return _APP_CLASSES[base]
+
+
 def build_constraints(cons):
     C = importlib.import_module("rig.place_and_route.constraints")
     from rig.routing_table import Routes
     out = []
-    for c in cons:
+    for i, c in enumerate(cons):
         k = c[0]
         if k == "loc":
-            out.append(C.LocationConstraint(c[1], tuple(c[2])))
+            out.append(_cls(C, "LocationConstraint", i)(c[1], tuple(c[2])))
         elif k == "same":
-            out.append(C.SameChipConstraint(list(c[1])))
+            out.append(_cls(C, "SameChipConstraint", i)(list(c[1])))
         elif k == "reserve":
-            out.append(C.ReserveResourceConstraint(
+            out.append(_cls(C, "ReserveResourceConstraint", i)(
                 res_obj(c[1]), slice(c[2], c[3]),
                 None if c[4] is None else tuple(c[4])))
         elif k == "align":
-            out.append(C.AlignResourceConstraint(res_obj(c[1]), c[2]))
+            out.append(_cls(C, "AlignResourceConstraint", i)(
+                res_obj(c[1]), c[2]))
         elif k == "endpoint":
-            out.append(C.RouteEndpointConstraint(c[1], Routes(c[2])))
+            out.append(_cls(C, "RouteEndpointConstraint", i)(
+                c[1], Routes(c[2])))
         else:
             raise AssertionError(c)
     return out
